@@ -480,6 +480,21 @@ impl<T> Block for NoCopyFileSink<T>""")]),
          edits=[E("src/graph.rs", "        let mut eof = vec![false; self.blocks.len()];", "        let mut eof = vec![true; self.blocks.len()];")]),
     dict(name="c04-amount-le-need", prop="C04", expect="C04.R7:stream::ReadStream::wait_for_read:amount-vs-need",
          edits=[E("src/stream.rs", "        self.circ.wait_for_read(need) < need && closed", "        self.circ.wait_for_read(need) <= need && closed")]),
+    # ---------------- blind spots found by tools/mutation_sweep.py
+    dict(name="sw-c09-need-2-after-empty", prop="C09", expect="C09.R4:<add::Add as block::Block>::work:need(a)",
+         edits=[E("rustradio_macros/src/lib.rs", "WaitForStream(&self.#in_names, 1));", "WaitForStream(&self.#in_names, 2));")]),
+    dict(name="sw-c04-generated-eof-never-true", prop="C04", expect="C04.R4:<add::Add as block::BlockEOF>::eof",
+         edits=[E("rustradio_macros/src/lib.rs", "                        if true #(&&self.#in_names.eof())* {", "                        if false #(&&self.#in_names.eof())* {")]),
+    dict(name="sw-c04-default-eof-true", prop="C04", expect="C04.R8:block::BlockEOF::eof:default",
+         edits=[E("src/block.rs", "    fn eof(&mut self) -> bool {\n        false\n", "    fn eof(&mut self) -> bool {\n        true\n")]),
+    dict(name="sw-c05-waitforfunc-not-called", prop="C05", expect="C05.R1:<mtgraph::MTGraph as graph::GraphRunner>::run::{closure#0}:WaitForFunc:f:call",
+         edits=[E("src/mtgraph.rs", "                                f();\n", "                                let _ = f;\n")]),
+    dict(name="sw-c16-filesource-eof-to-again", prop="C16", expect="C16.R8:<file_source::FileSource as block::Block>::work:again()==false",
+         edits=[E("src/file_source.rs", "                return Ok(BlockRet::EOF);", "                return Ok(BlockRet::Again);")]),
+    dict(name="sw-c16-tcpsource-closed-again", prop="C16", expect="C16.R8:<tcp_source::TcpSource as block::Block>::work:read()==0",
+         edits=[E("src/tcp_source.rs", "            return Ok(BlockRet::EOF);", "            return Ok(BlockRet::Again);")]),
+    dict(name="sw-c08-fill-deleted", prop="C08", expect="C08.R4:<file_source::FileSource as block::Block>::work:produce",
+         edits=[E("src/file_source.rs", "        o.fill_from_iter(v);", "        drop(v);")]),
     # ---------------- round-2 seeds as mutants
     dict(name="c02-tag-key-no-modulo", prop="C02", expect="C02.R5:circular_buffer::Buffer::produce:entry:key",
          edits=[E("src/circular_buffer.rs", "            let pos = (tag.pos() + s.wpos) % s.capacity();", "            let pos = tag.pos() + s.wpos;")]),
